@@ -460,7 +460,7 @@ def prop_c18(prop, tier, seed, verdict, tree):
                 reports += 1
                 k = san_key(res.stderr_tail)
                 if k:
-                    r.verdict.violation(k, "sanitizer report in %s (%s): %s" % (c["name"], cxx, res.stderr_tail[-1800:]))
+                    r.verdict.violation(k, "sanitizer report in %s (%s): %s" % (c["name"], cxx, res.stderr_tail[:1800]))
                 else:
                     r.verdict.violation("process-died|%s|rc=%s" % (c["name"], res.rc), "fsmmon %s (%s, sanitizers) ended rc=%s: %s" % (c["name"], cxx, res.rc, res.stderr_tail[-1200:]))
 
